@@ -6,6 +6,9 @@
 
 mod cfg;
 mod decode;
+mod eio;
+mod io_rec;
+mod shadow;
 mod emodel;
 mod gen;
 mod model;
@@ -25,6 +28,10 @@ fn main() -> ExitCode {
         "check" => runner::cmd_check(&args[2..]),
         "child" => runner::cmd_child(&args[2..]),
         "replay" => runner::cmd_replay(&args[2..]),
+        "killchild" => {
+            let code = eio::killchild(&args[2..]);
+            unsafe { libc::_exit(code) }
+        }
         "elidetest" => {
             elidetest();
             ExitCode::SUCCESS
